@@ -61,6 +61,9 @@ package file
 //@ ensures error-means-zero: err != nil ==> result == 0
 
 //@ func (*file.shardNodeFile).lengthFromLinks
+// measuring has no failure of its own: it fails only where looking up the links, stepping over them or
+// measuring one child fails (a zero-length child is as good as any other)
+//@ forbids fmt.Errorf errors.New own-error-values
 //@ domain links-is-a-list: isList(lookupStr(s.substrate, "Links"))
 //@ ensures measuring-declared-sizes-requests-no-block: sizesDeclared(s) ==> loads == old(loads)
 //@ ensures load-failure-is-returned: err == nil ==> loadFailed == old(loadFailed)
@@ -144,8 +147,10 @@ package file
 // The UnixFS metadata is decoded (once) whenever it is asked for: unpack never answers without
 // having gone through its Once.
 //@ func (*file.shardNodeFile).unpack
-//@ prop C01 C05 C20
+//@ prop C01 C05 C12 C20
 //@ calls (*sync.Once).Do
+// ... and what it hands back is the memo itself, on the first call and on every later one.
+//@ ensures reports-the-memoised-metadata: result0 == s.metadata
 
 // ---------------------------------------------------------------------------------------------
 // C01 / C05: the position algebra of makeReader. Children wholly before the offset are skipped by
